@@ -1,0 +1,13 @@
+//go:build verif
+
+package navmesh
+
+import "github.com/kercylan98/minotaur/toolkit/geometry"
+
+// VerifStringPull runs the unexported funnel on the given portals (the first and the last portal
+// are the single start / end points, as FindPath builds them). Read-only accessor for the
+// verification harness; compiled only with build tag verif.
+func VerifStringPull(portals [][2]geometry.Vector2) []geometry.Vector2 {
+	f := &funnel{portals: portals}
+	return f.stringPull()
+}
